@@ -166,6 +166,14 @@ func runCheck(repo, out, prop, tier string, timeout, seed int, verbose, keep boo
 	if tier == "thorough" {
 		solverSeed = seed // quick tier: solver defaults, so that the verdict does not depend on the seed
 	}
+	known0 := loadKnown(out)
+	for _, o := range obls {
+		for _, k := range known0 {
+			if k.Property == prop && k.Obligation == o.Name && k.Status == "known" {
+				o.ShortTimeout = true // a recorded finding: do not spend the full timeout on it every run
+			}
+		}
+	}
 	solveAll(obls, dir, timeout, tier == "thorough", solverSeed, 16)
 	tSolve := time.Since(start)
 	if os.Getenv("GOVC_TIMING") != "" {
